@@ -62,14 +62,31 @@ def enc_model_args(items):
     return out
 
 
-def src_of(items):
+SUF = {'I': '%', 'L': '&', 'S': '!', 'D': '#', '$': '$'}
+
+
+def src_of(items, mode='lit'):
+    """mode: lit = literals in place; var = values through variables; const = through
+    CONST names; sub = the statement inside a SUB; after = after another PRINT ending in ';'"""
     parts = []
-    for it in items:
+    pre = []
+    for k, it in enumerate(items):
         if it in (';', ','):
             parts.append(it)
         else:
-            parts.append(' ' + VALS[it[1]][2] + ' ')
-    return 'PRINT ' + ''.join(parts)
+            lit = VALS[it[1]][2]
+            if mode in ('var', 'const'):
+                name = f'q{k}{SUF[VALS[it[1]][0][0]]}'
+                pre.append((f'CONST {name} = {lit}' if mode == 'const' else f'{name} = {lit}'))
+                parts.append(' ' + name + ' ')
+            else:
+                parts.append(' ' + lit + ' ')
+    stmt = 'PRINT ' + ''.join(parts)
+    if mode == 'sub':
+        return 'p\nSUB p\n' + stmt + '\nEND SUB'
+    if mode == 'after':
+        return 'x% = 1\nIF x% = 1 THEN\n' + stmt + '\nEND IF'
+    return '\n'.join(pre + [stmt])
 
 
 def describe(items):
@@ -161,12 +178,38 @@ def main(tier, seed):
                 fixed.append(ctx.rng.choice([';', ',']))
             fixed.append(it)
         progs.append(fixed)
+    # long statements (many items): the argument protocol carries a count and the
+    # layout must be that of ONE statement however long it is
+    nL = 25 if tier == 'quick' else 250
+    for k in range(nL):
+        n = 7 + (k * 5 + ctx.rng.randint(0, 4)) % 28
+        fixed = []
+        for j in range(n):
+            it = ctx.rng.choice(alphaB)
+            if fixed and not isinstance(fixed[-1], str) and not isinstance(it, str):
+                fixed.append(ctx.rng.choice([';', ';', ',']))
+            fixed.append(it)
+        progs.append(fixed)
+    # deterministic long shapes: k numbers joined by ';' then a comma item
+    for k in (8, 11, 12, 13, 16, 20, 32, 40):
+        fixed = []
+        for j in range(k):
+            fixed += [('v', srcable[j % 6]), ';']
+        fixed[-1] = ','
+        fixed.append(('v', srcable[-1]))
+        progs.append(fixed)
+        progs.append(fixed + [','] + [('v', srcable[1])])
     casesB = []
-    for items in progs:
+    for k, items in enumerate(progs):
         for level in (0, 1, 2):
             for dbg in (False, True):
                 casesB.append({'items': items, 'src': src_of(items), 'level': level, 'debug': dbg})
-    ctx.rule.append(f'B: {nB} seeded PRINT statements (0..6 items) compiled by the real compiler '
+        # the same items computed differently / placed elsewhere: same text demanded
+        mode = ('var', 'const', 'sub', 'after')[k % 4]
+        for level in (0, 2):
+            casesB.append({'items': items, 'src': src_of(items, mode), 'level': level,
+                           'debug': bool(k % 2)})
+    ctx.rule.append(f'B: {nB} seeded PRINT statements (0..6 items), {nL} seeded long ones (7..34 items) and 16 fixed long shapes, compiled by the real compiler '
                     f'at levels 0,1,2 x debug on/off and run on the real machine')
 
     def normB(c, raw):
